@@ -38,16 +38,24 @@ def run(ctx):
     date, expires = 1517418800, 1517418800 + 3600
     certurl, vurl = b'https://example.com/cert.msg', b'https://example.com/resource.validity'
     # 1. honest exchanges, signed by the real code
-    unsigned, meta = [], []
+    unsigned, meta, miops, plain = [], [], [], []
     n = 40 if not thorough else 600
     for ver in VERS:
+        shapes = [(rs, p) for rs in (1, 2, 16) for p in (2 * rs, 3 * rs, 5 * rs)] + [(4096, 8192), (16384, 32768)]     # exact multiples of the record size
         for i in range(n):
-            rs = rng.choice([1, 2, 16, 100, 4096, 16384])
-            plen = rng.choice([0, 1, max(0, rs - 1), rs, rs + 1, 2 * rs, 2 * rs + 1]) if rs <= 100 else rng.choice([0, 1, rs - 1, rs, rs + 1])
+            if i < len(shapes):
+                rs, plen = shapes[i]
+            else:
+                rs = rng.choice([1, 2, 16, 100, 4096, 16384])
+                plen = rng.choice([0, 1, max(0, rs - 1), rs, rs + 1, 2 * rs, 2 * rs + 1]) if rs <= 100 else rng.choice([0, 1, rs - 1, rs, rs + 1, 2 * rs])
             e = rand_exchange(rng, ver, payload=rbytes(rng, plen))
             k = rng.choice(keys)
             unsigned.append(f'sxg.sign {exs(e)} {rs} {k["cert"]} {k["key"]} {hexs(certurl)} {hexs(vurl)} {date} {expires}')
+            miops.append(f'sxg.mi {exs(e)} {rs}')
+            plain.append(e[7])
             meta.append(k)
+    # the MI-encoding step of signing, compared with the model (payload stream, Digest / Content-Encoding headers)
+    ctx.both(miops)
     # F14 regression: digest header already present with an empty value must be refused by MiEncodePayload
     for ver in VERS:
         dn = b'MI-Draft2' if ver == 'b1' else b'Digest'
@@ -65,6 +73,11 @@ def run(ctx):
     for r, k in zip(res, meta):
         e = parse_ex(r) if r else None
         if e: signed.append((e, k))
+    # property oracle (theorem C02.honest_verifies): what the library signed verifies inside the window and yields the original payload
+    hon = [(parse_ex(r), k, pl) for r, k, pl in zip(res, meta, plain) if r and parse_ex(r)]
+    hv = ctx.go([f'sxg.verify {exs(e)} {(date + expires) // 2} 0 . {hexs(certurl)}:{k["chain"]} . . .' for e, k, pl in hon])
+    for (e, k, pl), g_ in zip(hon, hv):
+        ctx.records.append((f'c02.honest-verifies {exs(e)}', g_, f'valid {pl}'))
     if len(signed) < len(unsigned) * 0.9:
         ctx.infra.append(f'sxg.sign failed for {len(unsigned) - len(signed)} of {len(unsigned)} exchanges: {res[:2]}')
     # 2. write (compared)
